@@ -86,7 +86,7 @@ func TestC33Observers(t *testing.T) {
 	}
 	kit.SetChecks(100, 600)
 	rapid.Check(t, func(rt *rapid.T) {
-		spec := memsys.GenAssembly(rt, memsys.GenOpts{WTMinLatency: 1, Bottoms: []string{"ideal", "banked", "dram"}})
+		spec := memsys.GenAssembly(rt, memsys.GenOpts{Bottoms: []string{"ideal", "banked", "dram"}})
 		c := c33Case{Spec: spec}
 		n := kit.Scale(3, 5)
 		for i := 0; i < n; i++ {
